@@ -424,8 +424,17 @@ def configs(tier):
             out.append(dict(clients=[(0, p) for p in ps], M=1))
             out.append(dict(clients=[(0, p) for p in ps], M=2))
             out.append(dict(clients=[(0, ps[0]), (0, ps[1]), (1, ps[2])], M=1))
+        # two waiters behind two holders (needs N=4 with M=2): wake-ups must not be lost
+        # when both holders check in back to back
+        out.append(dict(clients=[(0, 'plain')] * 4, M=2))
+        out.append(dict(clients=[(0, 'ctx'), (0, 'plain'), (0, 'sess_ok'), (0, 'plain')], M=2))
         budget = 1
     else:
+        for ps in [('plain',) * 4, ('ctx', 'plain', 'sess_ok', 'plain'),
+                   ('twice', 'plain', 'plain', 'ctx'), ('plain',) * 5]:
+            out.append(dict(clients=[(0, p) for p in ps], M=2, budget=1))
+            out.append(dict(clients=[(0, p) for p in ps], M=3 if len(ps) == 5 else 2,
+                            budget=1, variant=1))
         for n in (2, 3):
             for ps in itertools.combinations_with_replacement(PROGRAMS, n):
                 for M in (1, 2):
@@ -440,7 +449,7 @@ def configs(tier):
     jobs = []
     for c in out:
         c['faults'] = dict(cancel=1, refuse=1, close=1, clean=1)
-        jobs.append(dict(params=c, budget=budget, prefix=[]))
+        jobs.append(dict(params=c, budget=c.pop('budget', budget), prefix=[]))
         if tier != 'quick' and len(c['clients']) == 2:
             c2 = dict(c, dual=True)
             jobs.append(dict(params=c2, budget=1, prefix=[]))
@@ -490,7 +499,7 @@ def describe(tier):
              'deviation (budget %d); invariants I1-I3 after every step, I4 at the end. '
              'distinct = distinct canonical pool states' % (
                  ', '.join(PROGRAMS), 1 if tier == 'quick' else 2),
-        bounds=dict(N='2..3', H='1..2', M='1..2', budget=1 if tier == 'quick' else 2,
+        bounds=dict(N='2..3 (+ N=4..5 with M=2..3 at budget 1)', H='1..2', M='1..2', budget=1 if tier == 'quick' else 2,
                     faults_per_run='<=1 of each kind'),
         assumptions=['virtual loop preserves asyncio FIFO callback order',
                      'fake connection objects: connect() completes when the '
